@@ -150,6 +150,7 @@ type expOpts struct {
 	addr       string
 	udpHook    func(s *expSession, p []byte) simnet.Fate // fault hook on the exporter's datagram socket
 	noPeer     bool                                      // the caller runs its own peer task
+	domain     uint32                                    // non-zero: observation domain of this session (several sessions in one run)
 }
 
 func newExpSession(env *Env) (*expSession, error) { return newExpSessionOpts(env, expOpts{}) }
@@ -162,6 +163,9 @@ func newExpSessionOpts(env *Env, o expOpts) (*expSession, error) {
 		s.proto = "udp"
 	}
 	s.domain = uint32(cfgOr(pl, "domain", 1))
+	if o.domain != 0 {
+		s.domain = o.domain
+	}
 	s.addr = "10.0.0.1:4739"
 	if cfgOr(pl, "v6", 0) == 1 {
 		s.addr = "[fd00::1]:4739"
@@ -504,6 +508,14 @@ func (s *expSession) runOps1(i int, op plan.Op) {
 		s.set.ResetSet()
 		s.send(callRec{Op: i, Kind: "undef", Slot: -1, Expect: "error", Why: "undefined set type"})
 	case "adv":
+		if op.S == "tick" && s.refresh > 0 {
+			// to the very instant of the next template refresh: what the application does next and
+			// the refresh are simultaneous, the scheduler orders (and interleaves) them
+			d := s.refresh - time.Since(s.t0)%s.refresh
+			s.env.Count("probe.application_send_at_refresh_instant", 1)
+			s.env.Sleep(d)
+			break
+		}
 		s.env.Sleep(time.Duration(op.A))
 	case "cstall":
 		// the application behind the collector stops consuming for B ms (the caller runs that consumer)
